@@ -47,7 +47,7 @@ def HOP(keys=True, **extra):
 
 
 def ROUTING(cls, **extra):
-    f = dict(circuit_id=INT, creation_time=REAL, last_activity=REAL, bytes_up=INT, bytes_down=INT, logger=LOGGER())
+    f = dict(circuit_id=RANGE(0, 2 ** 32 - 1), creation_time=REAL, last_activity=REAL, bytes_up=INT, bytes_down=INT, logger=LOGGER())
     f.update(extra)
     return OBJ(cls, **f)
 
